@@ -408,6 +408,10 @@ type env struct {
 	hp   map[string]*hashprefix.Filter
 	errs *errColl
 	dir  string
+	// stDir is the cache directory of the current storage.
+	stDir string
+	opt   envOpt
+	s     *srv
 }
 
 const (
@@ -433,48 +437,72 @@ func newEnv(s *srv, name string, o envOpt) (e *env, err error) {
 	if err = os.MkdirAll(dir, 0o755); err != nil {
 		return nil, err
 	}
-	e = &env{name: name, mgr: newManager(), hp: map[string]*hashprefix.Filter{}, errs: &errColl{}, dir: dir}
-	ctx := context.Background()
-	cloner := dnsmsg.NewCloner(dnsmsg.EmptyClonerStat{})
+	e = &env{name: name, mgr: newManager(), hp: map[string]*hashprefix.Filter{}, errs: &errColl{}, dir: dir, opt: o, s: s}
 	for _, k := range hashKinds {
-		var strg *hashprefix.Storage
-		strg, err = hashprefix.NewStorage("")
-		if err != nil {
+		if err = e.buildHash(k); err != nil {
 			return nil, err
 		}
-		var f *hashprefix.Filter
-		f, err = hashprefix.NewFilter(&hashprefix.FilterConfig{
-			Logger:          discard(),
-			Cloner:          cloner,
-			CacheManager:    e.mgr,
-			Hashes:          strg,
-			URL:             s.url("/hp/" + k),
-			ErrColl:         e.errs,
-			Metrics:         filter.EmptyMetrics{},
-			ID:              hashFilterID(k),
-			CachePath:       filepath.Join(dir, "hp_"+k),
-			ReplacementHost: hashReplacement(k),
-			Staleness:       staleness,
-			CacheTTL:        time.Hour,
-			RefreshTimeout:  refreshTimeout,
-			CacheCount:      o.HashCount,
-			MaxSize:         64 * datasize.MB,
-		})
-		if err != nil {
-			return nil, fmt.Errorf("hashprefix %s: %w", k, err)
-		}
-		if err = f.RefreshInitial(ctx); err != nil {
-			return nil, fmt.Errorf("hashprefix %s: %w", k, err)
-		}
-		e.hp[k] = f
 	}
+	if err = e.buildStorage(true); err != nil {
+		return nil, err
+	}
+	return e, nil
+}
+
+// buildHash replaces the hash-prefix filter of kind k by a new one that
+// downloads the list into a new cache file.
+func (e *env) buildHash(k string) (err error) {
+	strg, err := hashprefix.NewStorage("")
+	if err != nil {
+		return err
+	}
+	f, err := hashprefix.NewFilter(&hashprefix.FilterConfig{
+		Logger:          discard(),
+		Cloner:          dnsmsg.NewCloner(dnsmsg.EmptyClonerStat{}),
+		CacheManager:    e.mgr,
+		Hashes:          strg,
+		URL:             e.s.url("/hp/" + k),
+		ErrColl:         e.errs,
+		Metrics:         filter.EmptyMetrics{},
+		ID:              hashFilterID(k),
+		CachePath:       filepath.Join(e.dir, fmt.Sprintf("hp_%s_%d", k, envSeq.Add(1))),
+		ReplacementHost: hashReplacement(k),
+		Staleness:       staleness,
+		CacheTTL:        time.Hour,
+		RefreshTimeout:  refreshTimeout,
+		CacheCount:      e.opt.HashCount,
+		MaxSize:         64 * datasize.MB,
+	})
+	if err != nil {
+		return fmt.Errorf("hashprefix %s: %w", k, err)
+	}
+	if err = f.RefreshInitial(context.Background()); err != nil {
+		return fmt.Errorf("hashprefix %s: %w", k, err)
+	}
+	e.hp[k] = f
+	return nil
+}
+
+// buildStorage replaces the storage by a newly constructed one around the
+// current hash-prefix filters.  With download it gets an empty cache
+// directory, so that the initial refresh downloads everything; without, the
+// initial refresh reads the files the previous storage of this environment
+// downloaded (only valid while the served storage content has not changed).
+func (e *env) buildStorage(download bool) (err error) {
+	if download || e.stDir == "" {
+		e.stDir = filepath.Join(e.dir, fmt.Sprintf("st_%d", envSeq.Add(1)))
+		if err = os.MkdirAll(e.stDir, 0o755); err != nil {
+			return err
+		}
+	}
+	s, o := e.s, e.opt
 	ss := func(p string, id filter.ID) *filterstorage.ConfigSafeSearch {
 		return &filterstorage.ConfigSafeSearch{
 			URL: s.url(p), ID: id, MaxSize: 64 * datasize.MB, ResultCacheTTL: time.Hour,
 			RefreshTimeout: refreshTimeout, Staleness: staleness, ResultCacheCount: o.SafeSearchCount, Enabled: true,
 		}
 	}
-	e.st, err = filterstorage.New(&filterstorage.Config{
+	st, err := filterstorage.New(&filterstorage.Config{
 		BaseLogger: discard(),
 		Logger:     discard(),
 		BlockedServices: &filterstorage.ConfigBlockedServices{
@@ -496,15 +524,16 @@ func newEnv(s *srv, name string, o envOpt) (e *env, err error) {
 		Clock:             fixedClock{},
 		ErrColl:           e.errs,
 		Metrics:           filter.EmptyMetrics{},
-		CacheDir:          dir,
+		CacheDir:          e.stDir,
 	})
 	if err != nil {
-		return nil, fmt.Errorf("filterstorage.New: %w", err)
+		return fmt.Errorf("filterstorage.New: %w", err)
 	}
-	if err = e.st.RefreshInitial(ctx); err != nil {
-		return nil, err
+	if err = st.RefreshInitial(context.Background()); err != nil {
+		return err
 	}
-	return e, nil
+	e.st = st
+	return nil
 }
 
 func (e *env) close() { _ = os.RemoveAll(e.dir) }
